@@ -87,7 +87,7 @@ pub fn to_cidr(c: &CidrSpec) -> Result<CidrSubnet, String> {
             }
         }
         CidrCtor::FromStr => c.text().parse::<CidrSubnet>().map_err(|_| format!("CidrSubnet::from_str rejected {:?}", c.text()))?,
-        CidrCtor::Raw => {
+        CidrCtor::Raw | CidrCtor::RawHoles => {
             let m = c.mask();
             if c.addr.len() == 4 {
                 CidrSubnet::V4(c.addr.clone().try_into().unwrap(), m.try_into().unwrap())
